@@ -11,6 +11,7 @@ use std::sync::atomic::{AtomicUsize, Ordering};
 use std::sync::{Arc, Mutex};
 
 const FLAGS: [&str; 10] = ["grd", "com", "stm", "stmpre", "stmrew", "stmrew2", "stmca", "stmcb", "stmng", "twoval"];
+const CLI_BUDGET_S: u64 = 180;
 const HEUS: [&str; 4] = ["Simple", "MinModMinPathsMaxVarImp", "MinModMaxVarImpMinPaths", "Rand"];
 
 #[derive(Clone)]
@@ -66,12 +67,33 @@ fn run_job(cli: &str, work: &str, j: &Job) -> Value {
         args.push("--counter".into());
         args.push("nai".into());
     }
-    let out = std::process::Command::new(cli).args(&args).env_remove("RUST_LOG").env("RUST_BACKTRACE", "0").output();
-    let _ = std::fs::remove_file(&path);
-    let (exit, stdout, stderr) = match out {
-        Ok(o) => (o.status.code().unwrap_or(-1), String::from_utf8_lossy(&o.stdout).to_string(), String::from_utf8_lossy(&o.stderr).to_string()),
-        Err(e) => (-99, String::new(), format!("spawn failed {}", e)),
+    // a launch that does not come back is an answer too (exit -98): stdout / stderr go to files so that nothing can block on a pipe
+    let (so, se) = (format!("{}.out", path), format!("{}.err", path));
+    let spawned = std::process::Command::new(cli).args(&args).env_remove("RUST_LOG").env("RUST_BACKTRACE", "0")
+        .stdout(std::fs::File::create(&so).unwrap()).stderr(std::fs::File::create(&se).unwrap()).spawn();
+    let exit = match spawned {
+        Ok(mut child) => {
+            let t0 = std::time::Instant::now();
+            loop {
+                match child.try_wait() {
+                    Ok(Some(st)) => break st.code().unwrap_or(-1),
+                    Ok(None) if t0.elapsed().as_secs() > CLI_BUDGET_S => {
+                        let _ = child.kill();
+                        let _ = child.wait();
+                        break -98;
+                    }
+                    Ok(None) => std::thread::sleep(std::time::Duration::from_millis(4)),
+                    Err(_) => break -97,
+                }
+            }
+        }
+        Err(_) => -99,
     };
+    let stdout = String::from_utf8_lossy(&std::fs::read(&so).unwrap_or_default()).to_string();
+    let stderr = String::from_utf8_lossy(&std::fs::read(&se).unwrap_or_default()).to_string();
+    let _ = std::fs::remove_file(&path);
+    let _ = std::fs::remove_file(&so);
+    let _ = std::fs::remove_file(&se);
     let raw: Vec<&str> = stdout.lines().collect();
     // --counter nai prints one "ModelCounts { cmodels: x, models: y } " per statement on the first line
     let counts: Vec<Value> = if j.kind == "cli_counter" {
@@ -306,6 +328,14 @@ pub fn main(args: &[String]) {
             let lib = libs[rng.gen_range(0..3)];
             jobs.push(Job { id: format!("k{}_{}", k, jobs.len()), kind: "cli_bad", text: bad, lib, sort: "none", flags: vec!["grd", "com", "stm"], heu: None, labels: vec![], asts: vec![] });
         }
+    }
+    // many answers through the channel-fed section: ten self-supporting statements have 1024 two-valued models
+    if tier != "feat" {
+        let n = 10;
+        let labels: Vec<String> = (0..n).map(|i| format!("w{}", i)).collect();
+        let asts: Vec<Ast> = (0..n).map(Ast::Atom).collect();
+        let text = render(&labels, &asts, &canonical_facts(n), &plain_layout());
+        jobs.push(Job { id: format!("big_{}", jobs.len()), kind: "cli", text, lib: "hybrid", sort: "none", flags: vec!["twoval"], heu: None, labels, asts });
     }
     let jobs = Arc::new(jobs);
     let next = Arc::new(AtomicUsize::new(0));
